@@ -270,7 +270,7 @@ func RDB(t *tape.Tape, o RDBOpts) (file []byte, recs []rc.Record, version int, i
 			base := o.NowMs
 			switch {
 			case o.FutureOnly || t.Choose(3) != 2:
-				it.ExpireMs = base + 1000*uint64(1+t.Choose(100000))
+				it.ExpireMs = base + 1000*uint64(4*3600+t.Choose(100000)) // beyond any simulated run (MaxSimTime <= 3 h): a live key never expires under the oracle's feet
 			default:
 				it.ExpireMs = base - 1000*uint64(1+t.Choose(100000)) // already expired
 			}
